@@ -36,6 +36,10 @@ pub struct ElfSpec {
     pub last_name: u8,
     /// bytes appended after everything else
     pub tail: usize,
+    /// an allocated, non-executable PROGBITS section (`.rodata`) in front of `.text`
+    pub rodata: Vec<u8>,
+    /// DT_SONAME points at `DT_STRSZ + delta` instead of at the name (a hostile table: no reference SONAME)
+    pub soname_at_strsz: Option<i64>,
 }
 
 struct W {
@@ -106,9 +110,9 @@ pub fn build(s: &ElfSpec) -> Built {
     dynstr.extend_from_slice(b"libc.so.6\0");
     // shstrtab, with the chosen name last
     let names: Vec<&[u8]> = match s.last_name {
-        1 => vec![b".text", b".dynamic", b".dynstr", b".shstrtab", b".note.gnu.build-id"],
-        2 => vec![b".text", b".dynamic", b".note.gnu.build-id", b".shstrtab", b".dynstr"],
-        _ => vec![b".text", b".dynamic", b".note.gnu.build-id", b".dynstr", b".shstrtab"],
+        1 => vec![b".rodata", b".text", b".dynamic", b".dynstr", b".shstrtab", b".note.gnu.build-id"],
+        2 => vec![b".rodata", b".text", b".dynamic", b".note.gnu.build-id", b".shstrtab", b".dynstr"],
+        _ => vec![b".rodata", b".text", b".dynamic", b".note.gnu.build-id", b".dynstr", b".shstrtab"],
     };
     let mut shstr = vec![0u8];
     let mut name_off = std::collections::HashMap::new();
@@ -123,6 +127,9 @@ pub fn build(s: &ElfSpec) -> Built {
     let phoff = if s.has_phdrs { off } else { 0 };
     off += nph * phsize;
     let align_up = |x: usize, a: usize| (x + a - 1) / a * a;
+    off = align_up(off, 16);
+    let rodata_off = off;
+    off += s.rodata.len();
     off = align_up(off, 16);
     let text_off = off;
     off += s.text.len();
@@ -144,6 +151,9 @@ pub fn build(s: &ElfSpec) -> Built {
     let shoff = if s.has_sections { off } else { 0 };
     // sections: null, .text, .note.gnu.build-id (if note_section), .dynamic (if dyn_section), .dynstr, .shstrtab
     let mut sects: Vec<(&[u8], u32, u64, usize, usize, u32, u64)> = Vec::new(); // name, type, flags, off, size, link, align
+    if !s.rodata.is_empty() {
+        sects.push((b".rodata", 1, 2, rodata_off, s.rodata.len(), 0, 16));
+    }
     sects.push((b".text", 1, 6, text_off, s.text.len(), 0, 16));
     if s.note_section && !notes.is_empty() {
         sects.push((b".note.gnu.build-id", 7, 2, notes_off, notes.len(), 0, 4));
@@ -195,6 +205,9 @@ pub fn build(s: &ElfSpec) -> Built {
         }
     }
     w.pad_to(16);
+    assert_eq!(w.d.len(), rodata_off);
+    w.d.extend_from_slice(&s.rodata);
+    w.pad_to(16);
     assert_eq!(w.d.len(), text_off);
     w.d.extend_from_slice(&s.text);
     w.pad_to(8);
@@ -213,7 +226,11 @@ pub fn build(s: &ElfSpec) -> Built {
     }
     w.word(5); w.word(s.bias + dynstr_off as u64);     // DT_STRTAB: an address
     if s.soname.is_some() {
-        w.word(14); w.word(soname_off as u64);
+        w.word(14);
+        match s.soname_at_strsz {
+            Some(delta) => w.word((dynstr.len() as i64 + delta) as u64),
+            None => w.word(soname_off as u64),
+        }
     }
     w.word(10); w.word(dynstr.len() as u64);           // DT_STRSZ
     for (t, v) in &s.dyn_after {
@@ -252,7 +269,7 @@ pub fn build(s: &ElfSpec) -> Built {
         None
     };
     let dyn_reachable = (s.has_phdrs && s.dyn_phdr) || (s.has_sections && s.dyn_section);
-    let soname = if dyn_reachable { s.soname.clone() } else { None };
+    let soname = if dyn_reachable && s.soname_at_strsz.is_none() { s.soname.clone() } else { None };
     Built { bytes: w.d, build_id, soname }
 }
 
@@ -293,5 +310,7 @@ pub fn gen_spec(r: &mut Rng) -> ElfSpec {
         text: r.bytes(tlen),
         last_name: r.below(3) as u8,
         tail: *r.pick(&[0usize, 0, 64, 5000]),
+        rodata: { let has = r.chance(1, 3); let n = *r.pick(&[1usize, 16, 40, 300]); if has { r.bytes(n) } else { Vec::new() } },
+        soname_at_strsz: if r.chance(1, 10) { Some(*r.pick(&[0i64, 0, -1, 1, 1000])) } else { None },
     }
 }
